@@ -521,9 +521,9 @@ func runC12(env *Env) {
 		return
 	}
 	r := env.Rng
-	n := 90
+	n := 300
 	if c12Soak {
-		n = 45
+		n = 150
 	}
 	if env.Thorough() {
 		n *= 12
